@@ -8,6 +8,7 @@ labels come from; that every view of the kernel dispatches to the view of the sa
 the strict one in all three storages."""
 from .core import RuleResult
 from .facts import fn_key, fn_loc, fn_file, walk, children, strip, peel_refs, pat_bindings, Render
+from .facts import lit_float, lit_number
 from .c17 import for_loops, tuple_positions
 
 LEVEL = ("Static analysis of linfa-kernel and linfa-hierarchical. Decided: (entries) the cell (i, j) of the dense matrix and the "
@@ -371,7 +372,7 @@ def rule_method(ctx):
                     bd = peel_refs(bd["r"])
                 if bd.get("k") == "Binary" and bd["op"] == "*":
                     ops = (diff(bd["l"]), diff(bd["r"]))
-                elif bd.get("k") == "MethodCall" and bd["name"] in ("powi", "powf") and bd["args"] and str(peel_refs(bd["args"][0]).get("v")).rstrip(".0f3264_") == "2":
+                elif bd.get("k") == "MethodCall" and bd["name"] in ("powi", "powf") and bd["args"] and lit_float(peel_refs(bd["args"][0]).get("v")) == 2.0:
                     ops = (diff(bd["recv"]),) * 2
                 else:
                     return None
@@ -1077,6 +1078,21 @@ def rule_linkage(ctx):
             cnd = strip(body["c"])
             if clamped:
                 res.violate("%s : dissimilarity-clamped" % key, "the -ln transform is passed through `%s`: dissimilarities of similarities above one (linear and polynomial kernels) are cut off, so averaging linkages merge at other levels" % r.e(clamped[0])[:50], fn_loc(fn, clamped[0].get("ln")))
+            elif (t_ is None) != (e_ is None) and cnd.get("k") == "Binary" and _const_branch(c, fn, body["then"] if t_ is None else body["else"]) is not None:
+                # one branch is a constant: the cap for pairs at or below the floor.  It has to be the transform of the floor
+                # itself (-ln floor), or floored pairs are nearer (or farther) than pairs just above the floor
+                import math as _math
+                capv = _const_branch(c, fn, body["then"] if t_ is None else body["else"])
+                floorv = None
+                for side in (cnd["l"], cnd["r"]):
+                    if local_of(side) != x:
+                        floorv = _const_branch(c, fn, side)
+                if floorv is None or floorv <= 0:
+                    res.undecided("%s : transform-form" % key, "constant cap with an unreadable floor (fail closed)", fn_loc(fn, body.get("ln")))
+                elif abs(capv - (-_math.log(floorv))) <= 1e-6 * max(1.0, abs(capv)):
+                    res.ok()
+                else:
+                    res.violate("%s : cap-is-not-the-transform-of-the-floor" % key, "similarities at or below the floor %g get the dissimilarity %g, but -ln(%g) = %.4f: pairs under the floor come out %s than pairs just above it, in another order than their similarities" % (floorv, capv, floorv, -_math.log(floorv), "nearer" if capv < -_math.log(floorv) else "farther"), fn_loc(fn, body.get("ln")))
             elif t_ is None or e_ is None or cnd.get("k") != "Binary":
                 res.undecided("%s : transform-form" % key, "branches are not `±v.ln()` (fail closed)", fn_loc(fn, body.get("ln")))
             elif not t_[0] or not e_[0]:
@@ -1121,6 +1137,32 @@ def rule_linkage(ctx):
 
 # ---------------------------------------------------------------- views
 VIEWS = ("dot", "sum", "size", "column", "to_upper_triangle", "diagonal")
+
+
+def _const_branch(c, fn, e, depth=0):
+    """float value of a constant expression (literals, F::cast(lit), locals bound to such, negation), else None"""
+    e = peel_refs(e)
+    while e.get("k") == "Block" and not e.get("stmts") and e.get("e") is not None:
+        e = peel_refs(e["e"])
+    if depth > 4:
+        return None
+    if e.get("k") == "Lit":
+        try:
+            return float(str(e.get("v")).replace("_", "").replace("f32", "").replace("f64", ""))
+        except ValueError:
+            return None
+    if e.get("k") == "Unary" and e["op"] == "-":
+        v = _const_branch(c, fn, e["e"], depth + 1)
+        return -v if v is not None else None
+    if e.get("k") == "Call" and len(e["args"]) == 1 and (c.dfn(strip(e["f"]).get("def")) or {}).get("name") in ("cast", "from", "from_f64", "from_f32"):
+        return _const_branch(c, fn, e["args"][0], depth + 1)
+    if e.get("k") == "MethodCall" and e["name"] == "unwrap" and not e["args"]:
+        return _const_branch(c, fn, e["recv"], depth + 1)
+    if e.get("k") == "Path" and "local" in e:
+        for y in walk(fn["body"]):
+            if y.get("k") == "LetStmt" and y.get("init") is not None and y["pat"].get("k") == "Bind" and y["pat"]["local"] == e["local"]:
+                return _const_branch(c, fn, y["init"], depth + 1)
+    return None
 
 
 def rule_views(ctx):
